@@ -279,6 +279,8 @@ impl AbstractTree for Tree {
         let config = self.tree_config();
         let mut versions = self.get_version_history_lock();
 
+        let old_version = versions.latest_version().version;
+
         versions.upgrade_version(
             &config.path,
             |v| {
@@ -290,7 +292,17 @@ impl AbstractTree for Tree {
             },
             &config.seqno,
             &config.visible_seqno,
-        )
+        )?;
+
+        // NOTE: The new version does not reference the old tables anymore,
+        // so mark them as deleted, otherwise their files would stay on disk until the next recovery
+        //
+        // They are only actually unlinked when the last (snapshot) reference to them is dropped
+        for table in old_version.iter_tables() {
+            table.mark_as_deleted();
+        }
+
+        Ok(())
     }
 
     #[doc(hidden)]
